@@ -42,6 +42,112 @@ theorem sim_model_pg {x : GPS grow} {st : Store} (h : Sim x st) : ∃ p, st = .p
   obtain ⟨_, s', _, _, hst, _, hi', _⟩ := h
   exact ⟨s', hst, hi'⟩
 
+/-! ### `ForEachList` of the instance -/
+
+@[simp] theorem gps_forEachList (x : GPS grow) : StoreI.ForEachList x = gForEachList x := rfl
+@[simp] theorem gps_encode (x : GPS grow) (b : List (BitVec 8)) (t : Gen.Encoding.FlagType) :
+    StoreI.Encode x b t = gEncode x b t := rfl
+
+/-- related stores enumerate the same bins (index, float count), in the same order -/
+theorem sim_forEachList {x : GPS grow} {st : Store} (h : Sim x st) :
+    (StoreI.ForEachList x : List (Int × F64)) = StoreI.ForEachList st := by
+  obtain ⟨s, s', cap, hx, rfl, hi, hi', hc⟩ := h
+  show gForEachList x = ((Store.pg s').binsList.getD []).map (fun p => (p.1, F64.fin p.2))
+  unfold gForEachList
+  rw [hx, ofGen_toGen]
+  have e : s.binsList = s'.binsList := hc
+  rw [e]
+  rfl
+
+/-- the list of the instance is what the regenerated `ForEach` enumerates: for every callback the regenerated
+    `ForEach` is the walk (`GenPag.visit`) of the model image's `binsList`; with a callback that never stops it
+    succeeds (result: the store with its buffer sorted) and the calls it makes, in order, are the entries of
+    `ForEachList` (as rationals).  No invariant needed; fuel `forEachFuel s = len(buffer) + 1`. -/
+theorem forEachList_is_ForEach (s : PStore) (cap : Int) (fuel : Nat) (hf : forEachFuel s ≤ fuel) :
+    (StoreI.ForEachList (⟨toGen s cap⟩ : GPS grow) : List (Int × F64)) =
+      (visitTrace (fun _ _ => .ok false) s.binsList).map (fun p => (p.1, F64.fin p.2)) ∧
+    BufferedPaginatedStore.ForEach fuel (toGen s cap) (fun _ _ => .ok false)
+      = .ok (toGen { s with buffer := PStore.sortInts s.buffer } cap) ∧
+    ∀ f, BufferedPaginatedStore.ForEach fuel (toGen s cap) f = visit f (toGen s.sortRead cap) s.binsList := by
+  obtain ⟨h1, h2⟩ := forEach_all s cap fuel hf
+  refine ⟨?_, h1, fun f => forEach_eq_visit s cap f fuel hf⟩
+  rw [h2]
+  show gForEachList (⟨toGen s cap⟩ : GPS grow) = _
+  unfold gForEachList
+  rw [ofGen_toGen]
+
+/-! ### `Encode` of the instance
+
+  The instance runs the regenerated `BufferedPaginatedStore.Encode` with fuel `encodeFuel compactFuel (ofGen g) + 1`,
+  which `GenPagCodec.Encode_inv` shows sufficient (the fuel is NOT heuristic).  What is true under `Sim`:
+  both encoders succeed, both compact their receiver (the results are related again), and each appends to `b`
+  the bytes of the MODEL's block list for ITS OWN compacted store (`sim_encode`).  The two block lists — hence the
+  bytes — differ in general: `Sim` only says "same content", the split buffer / pages and the set of materialised
+  pages are not determined by the content (the model's `AddWithCount` compacts at every add, the regenerated code
+  when `len(buffer) == cap(buffer)`).  What IS equal is the denotation: under the encoder's range condition
+  `RoundTrip.PagOK` on both stores (buffer shorter than `2^64`, counts that survive the varfloat transform), both
+  block lists consist of well-formed bins blocks of the requested side and both DENOTE the common content
+  (`sim_encode_denotes`, through `RoundTrip.storeEncodes_pag`). -/
+
+open DDS.RoundTrip in
+/-- `Encode` on related stores (buffer of the regenerated store shorter than `2^64`) -/
+theorem sim_encode {x : GPS grow} {st : Store} (h : Sim x st) (side : Side) (t : Gen.Encoding.FlagType)
+    (ht : t.byte.toNat = Wire.sideType side) (hs : GenSketch.flagSide t = side) (b : List (BitVec 8))
+    (hlen : (ofGen x.g).buffer.length < 2 ^ 64) :
+    ∃ (s1 s1' : PStore) (cap : Int) (bl bl' : List Block),
+      Sketch.encodeStore (.pg (ofGen x.g)) side = some (.pg s1, bl) ∧
+      Sketch.encodeStore st side = some (.pg s1', bl') ∧
+      (StoreI.Encode x b t : GPS grow × List (BitVec 8)) =
+        (⟨toGen s1 cap⟩, b ++ GenEncoding.bn (Wire.encBlocks bl)) ∧
+      (StoreI.Encode st b t : Store × List (BitVec 8)) = (.pg s1', b ++ GenEncoding.bn (Wire.encBlocks bl')) ∧
+      Sim (StoreI.Encode x b t).1 (StoreI.Encode st b t).1 := by
+  obtain ⟨s, s', cap, hx, rfl, hi, hi', hc⟩ := h
+  rw [hx, ofGen_toGen] at hlen
+  obtain ⟨s1, bl, e1, g1, i1, c1⟩ := Encode_inv compactFuel compactSpec (encodeFuel compactFuel s + 1) s cap side t ht b
+    hi hlen (Nat.le_succ _)
+  obtain ⟨s1', k1, i1', c1'⟩ := Props.C04Pag.compact_content s' hi'
+  have e1' : Sketch.encodeStore (.pg s') side = some (.pg s1', pagBlocks s1' side) := by
+    rw [encodeStore_pg, k1]; rfl
+  have hG : (StoreI.Encode x b t : GPS grow × List (BitVec 8)) =
+      (⟨toGen s1 cap⟩, b ++ GenEncoding.bn (Wire.encBlocks bl)) := by
+    simp only [gps_encode, gEncode, hx, ofGen_toGen, g1]
+  have hM : (StoreI.Encode (Store.pg s') b t : Store × List (BitVec 8)) =
+      (.pg s1', b ++ GenEncoding.bn (Wire.encBlocks (pagBlocks s1' side))) := by
+    show GenSketch.storeEncode (.pg s') b t = _
+    unfold GenSketch.storeEncode
+    rw [hs, e1']
+    rfl
+  refine ⟨s1, s1', cap, bl, _, by rw [hx, ofGen_toGen]; exact e1, e1', hG, hM, ?_⟩
+  rw [hG, hM]
+  exact ⟨s1, s1', cap, rfl, rfl, i1, i1', by rw [c1, c1', hc]⟩
+
+open DDS.RoundTrip in
+/-- **the bytes written on related stores denote the same content** -/
+theorem sim_encode_denotes {x : GPS grow} {s' : PStore} (h : Sim x (.pg s')) (side : Side)
+    (t : Gen.Encoding.FlagType) (ht : t.byte.toNat = Wire.sideType side) (hs : GenSketch.flagSide t = side)
+    (b : List (BitVec 8)) (hp : PagOK (ofGen x.g)) (hp' : PagOK s') :
+    ∃ (bl bl' : List Block),
+      (StoreI.Encode x b t : GPS grow × List (BitVec 8)).2 = b ++ GenEncoding.bn (Wire.encBlocks bl) ∧
+      (StoreI.Encode (Store.pg s') b t : Store × List (BitVec 8)).2 = b ++ GenEncoding.bn (Wire.encBlocks bl') ∧
+      (∀ k ∈ bl, k.WF ∧ k.FiniteWeights ∧ IsBins side k) ∧ (∀ k ∈ bl', k.WF ∧ k.FiniteWeights ∧ IsBins side k) ∧
+      Denotes (sideBins (Wire.interp bl) side) (content s') ∧
+      Denotes (sideBins (Wire.interp bl') side) (content s') ∧
+      Sim (StoreI.Encode x b t).1 (StoreI.Encode (Store.pg s') b t).1 := by
+  obtain ⟨s1, s1', cap, bl, bl', e1, e1', hG, hM, hS⟩ := sim_encode h side t ht hs b hp.bufLen
+  obtain ⟨_, _, _, _, bl2, e2, w2, d2⟩ := storeEncodes_pag (ofGen x.g) hp side
+  obtain ⟨_, _, _, _, bl2', e2', w2', d2'⟩ := storeEncodes_pag s' hp' side
+  rw [e1] at e2
+  rw [e1'] at e2'
+  have hb : bl = bl2 := (Prod.mk.inj (Option.some.inj e2)).2
+  have hb' : bl' = bl2' := (Prod.mk.inj (Option.some.inj e2')).2
+  subst hb hb'
+  have hcont : content (ofGen x.g) = content s' := by
+    obtain ⟨s, s'', cap', hx, hst, _, _, hc⟩ := h
+    cases hst
+    rw [hx, ofGen_toGen]; exact hc
+  rw [hcont] at d2
+  exact ⟨bl, bl', by rw [hG], by rw [hM], w2, w2', d2, d2', hS⟩
+
 section sketch
 
 open DDS.Gen.Sketch
